@@ -1,6 +1,6 @@
 #!/bin/bash
 # Build the simulator for one flavour from /repo's *current working tree*.
-# usage: build.sh <plain|asan|long> ; prints the build directory on stdout.
+# usage: build.sh <plain|asan|long|vblas> ; prints the build directory on stdout.
 set -e
 FLAV=${1:-plain}
 REPO=${VERIF_REPO:-/repo}
@@ -11,9 +11,12 @@ case $FLAV in
   plain) LIBF="-O1 $COMMON"; HF="-O2 $COMMON"; LDF="" ;;
   asan)  LIBF="-O1 $COMMON -fsanitize=address,alignment,null -fno-sanitize-recover=all"; HF="-O1 $COMMON -fsanitize=address"; LDF="-fsanitize=address,alignment,null" ;;
   long)  LIBF="-O1 $COMMON -D_LONGINT"; HF="-O2 $COMMON -D_LONGINT"; LDF="" ;;
+  vblas) LIBF="-O1 $COMMON -DUSE_VENDOR_BLAS"; HF="-O2 $COMMON -DSIM_VBLAS"; LDF="" ;;
   *) echo "unknown flavour $FLAV" >&2; exit 2 ;;
 esac
 SRCS=$(cd $REPO && ls SRC/*.c CBLAS/*.c | grep -v 'SRC/sp_ienv.c' | grep -v 'CBLAS/.myblas2.c')
+EXTRALIB=""
+if [ $FLAV = vblas ]; then SRCS=$(cd $REPO && ls SRC/*.c | grep -v 'SRC/sp_ienv.c'); EXTRALIB="-lopenblas"; fi
 HASH=$( (cd $REPO && cat $SRCS SRC/*.h CBLAS/*.h; cat $HERE/*.cc $HERE/*.hh $HERE/build.sh; echo "$FLAV $LIBF $HF") | sha256sum | cut -c1-16)
 BD=$ROOT/build/$FLAV-$HASH
 if [ -x $BD/simfact ]; then echo $BD; exit 0; fi
@@ -28,5 +31,5 @@ CXX="g++ -std=c++17 -fcx-limited-range $HF -I$REPO/SRC -I$HERE"
   for f in sim oracle gen runner monitor minimise simfact ienv; do echo "$CXX -c $HERE/$f.cc -o $BD/h/$f.o"; done
 ) | xargs -P 16 -I{} sh -c "{}" >&2
 WRAPS="-Wl,--wrap=pthread_create,--wrap=pthread_join,--wrap=pthread_mutex_init,--wrap=pthread_mutex_destroy,--wrap=pthread_mutex_lock,--wrap=pthread_mutex_unlock,--wrap=malloc,--wrap=calloc,--wrap=realloc,--wrap=free,--wrap=exit"
-g++ $LDF -rdynamic -o $BD/simfact $BD/h/*.o $BD/libslu.a $WRAPS -lpthread -ldl -lm >&2
+g++ $LDF -rdynamic -o $BD/simfact $BD/h/*.o $BD/libslu.a $EXTRALIB $WRAPS -lpthread -ldl -lm >&2
 echo $BD
